@@ -34,6 +34,8 @@ class Unsupported(BaseException):
 
 
 _ctx = None
+import os as _os
+_DUMP = _os.environ.get("SYMEX_DUMP")
 
 
 def ctx() -> "Ctx":
@@ -77,7 +79,15 @@ class Ctx:
         t0 = time.time()
         self.nqueries += 1
         r = self.solver.check(*extra)
-        self.solver_time += time.time() - t0
+        dt = time.time() - t0
+        self.solver_time += dt
+        if _DUMP and dt > float(_DUMP):
+            import os
+            with open(f"/tmp/slowq_{os.getpid()}_{self.nqueries}.smt2", "w") as f:
+                s2 = z3.Solver()
+                s2.add(self.solver.assertions())
+                s2.add(*extra)
+                f.write(s2.to_smt2())
         if r == z3.unknown:
             raise Inconclusive(self.solver.reason_unknown())
         if r == z3.sat:
@@ -197,6 +207,50 @@ class Ctx:
                 v = m.eval(e, model_completion=True).as_long()
             if self.decide(e == v, tag=v):
                 return v
+
+    def choose(self, conds):
+        """index of the first condition (z3 Bools, priority order) that holds, or -1;
+        forks over the feasible outcomes.  Stays within the Boolean/bit-vector theory
+        (no integer if-then-else chains)."""
+        conds = [z3.simplify(c) for c in conds]
+        for i, c in enumerate(conds):
+            if z3.is_true(c):
+                conds = conds[: i + 1]
+                break
+        live = [(i, c) for i, c in enumerate(conds) if not z3.is_false(c)]
+        if not live:
+            return -1
+        if len(live) == 1 and z3.is_true(live[0][1]):
+            return live[0][0]
+        excluded = set()
+        n = 0
+        while True:
+            n += 1
+            if n > len(live) + 2:
+                raise BoundExceeded("choose: no progress")
+            k = len(self.trace)
+            if k < len(self.prefix):
+                cand = self.prefix[k][0]
+            else:
+                m = self.feasible()
+                if m is None:
+                    raise PathAbort()
+                cand = -1
+                for i, c in live:
+                    if z3.is_true(m.eval(c, model_completion=True)):
+                        cand = i
+                        break
+            if cand == -1:
+                cnd = z3.Not(z3.Or(*[c for _, c in live])) if len(live) > 1 else z3.Not(live[0][1])
+            else:
+                before = [c for i, c in live if i < cand]
+                me = [c for i, c in live if i == cand][0]
+                cnd = z3.And(me, z3.Not(z3.Or(*before))) if len(before) > 1 else (z3.And(me, z3.Not(before[0])) if before else me)
+            if self.decide(cnd, tag=cand):
+                return cand
+            if cand in excluded:
+                raise BoundExceeded("choose: repeated candidate")
+            excluded.add(cand)
 
     def note(self, s):
         self.notes.append(s)
@@ -353,10 +407,15 @@ def ite(c, a, b):
 
 
 class SInt:
-    __slots__ = ("e",)
+    """symbolic Python int (z3 Int).  `bv`, when set, is an unsigned bit-vector term
+    with the same value: comparisons against constants then stay in the bit-vector
+    theory (Int/BV mixing through bv2int is what makes queries slow)."""
 
-    def __init__(self, e):
+    __slots__ = ("e", "bv")
+
+    def __init__(self, e, bv=None):
         self.e = e
+        self.bv = bv
 
     def __repr__(self):
         return f"SInt({self.e})"
@@ -441,32 +500,96 @@ class SInt:
     def __truediv__(self, o):
         raise Unsupported("true division on symbolic int (float)")
 
-    def _cmp(self, o, f):
+    def to_bytes(self, length=1, byteorder="big", *, signed=False):
+        from .seq import SSeq
+
+        if length != 1 or signed:
+            raise Unsupported("int.to_bytes beyond one unsigned byte")
+        if self.bv is not None:
+            w = self.bv.size()
+            if w > 8 and not ctx().decide(z3.ULT(self.bv, 256)):
+                raise OverflowError("int too big to convert")
+            b = self.bv if w == 8 else (z3.Extract(7, 0, self.bv) if w > 8 else z3.ZeroExt(8 - w, self.bv))
+            return SSeq("bytes", [z3.simplify(b)], 1)
+        if not ctx().decide(z3.And(self.e >= 0, self.e < 256)):
+            raise OverflowError("int too big to convert")
+        return SSeq("bytes", [z3.Int2BV(self.e, 8)], 1)
+
+    def bit_length(self):
+        raise Unsupported("bit_length")
+
+    def _cmp(self, o, f, name=None):
+        if self.bv is not None and name is not None:
+            r = _bv_cmp(self.bv, o, name)
+            if r is not None:
+                return r
         if isinstance(o, (int, SInt, SBool)):
             return mk_bool(f(self.e, zi(o)))
         return NotImplemented
 
     def __lt__(self, o):
-        return self._cmp(o, lambda a, b: a < b)
+        return self._cmp(o, lambda a, b: a < b, "lt")
 
     def __le__(self, o):
-        return self._cmp(o, lambda a, b: a <= b)
+        return self._cmp(o, lambda a, b: a <= b, "le")
 
     def __gt__(self, o):
-        return self._cmp(o, lambda a, b: a > b)
+        return self._cmp(o, lambda a, b: a > b, "gt")
 
     def __ge__(self, o):
-        return self._cmp(o, lambda a, b: a >= b)
+        return self._cmp(o, lambda a, b: a >= b, "ge")
 
     def __eq__(self, o):
+        if self.bv is not None:
+            r = _bv_cmp(self.bv, o, "eq")
+            if r is not None:
+                return r
         if isinstance(o, (int, SInt, SBool)):
             return mk_bool(self.e == zi(o))
         return False
 
     def __ne__(self, o):
+        if self.bv is not None:
+            r = _bv_cmp(self.bv, o, "eq")
+            if r is not None:
+                return snot(r)
         if isinstance(o, (int, SInt, SBool)):
             return mk_bool(self.e != zi(o))
         return True
+
+
+def _bv_cmp(bv, o, name):
+    """compare an unsigned bit-vector valued int with a constant / another such int"""
+    w = bv.size()
+    if isinstance(o, bool):
+        o = int(o)
+    if isinstance(o, int):
+        top = (1 << w) - 1
+        if o < 0:
+            return {"lt": False, "le": False, "gt": True, "ge": True, "eq": False}[name]
+        if o > top:
+            return {"lt": True, "le": True, "gt": False, "ge": False, "eq": False}[name]
+        c = z3.BitVecVal(o, w)
+        e = {"lt": z3.ULT, "le": z3.ULE, "gt": z3.UGT, "ge": z3.UGE, "eq": lambda a, b: a == b}[name](bv, c)
+        return mk_bool(e)
+    if isinstance(o, SInt) and o.bv is not None:
+        w2 = o.bv.size()
+        a, b = bv, o.bv
+        if w < w2:
+            a = z3.ZeroExt(w2 - w, a)
+        elif w2 < w:
+            b = z3.ZeroExt(w - w2, b)
+        e = {"lt": z3.ULT, "le": z3.ULE, "gt": z3.UGT, "ge": z3.UGE, "eq": lambda x, y: x == y}[name](a, b)
+        return mk_bool(e)
+    return None
+
+
+def mk_int_bv(bv):
+    """Python-int view of an unsigned bit-vector term"""
+    bv = z3.simplify(bv)
+    if z3.is_bv_value(bv):
+        return bv.as_long()
+    return SInt(z3.BV2Int(bv), bv)
 
 
 def smin(*a, **kw):
